@@ -253,8 +253,21 @@ fn list_laws(ctx: &Ctx, sink: &mut Sink, i: u64) {
         _ => l.sink.viol("law=sort-permutation", "sort of a list failed", json!({"A": list(a.clone()).show(), "sorted": sorted.show()})),
     }
     l.expect("sort-does-not-mutate", "A", &list(a.clone()));
+    // stability of plain sort on long lists: elements that compare equal but are distinguishable (0 / -0, [0] / [-0])
+    {
+        let zl = 33 + r.below(40);
+        let zs: Vec<RVal> = (0..zl).map(|_| match r.below(4) { 0 => n(0.0), 1 => n(-0.0), 2 => n(1.0), _ => n(-1.0) }).collect();
+        let vz = mk_value(&sess.heap, &list(zs.clone()));
+        sess.bind("Z", vz);
+        let mut ez = zs.clone();
+        ez.sort_by(|p, q| model::compare(p, q).unwrap());
+        l.expect("sort-stable-long-list", "sort(Z)", &list(ez));
+    }
     // sort_by with a key: stable permutation ordered by key (tagged elements expose stability)
-    let tagged: Vec<RVal> = (0..len.min(25)).map(|k| list(vec![n(r.below(4) as f64), n(k as f64)])).collect();
+    // up to 70 elements with few distinct keys: unstable sorting algorithms only show above ~20-32 elements
+    let tlen = if r.chance(1, 2) { len } else { 33 + r.below(38) };
+    let nkeys = 2 + r.below(4);
+    let tagged: Vec<RVal> = (0..tlen).map(|k| list(vec![n(r.below(nkeys) as f64), n(k as f64)])).collect();
     let vt = mk_value(&sess.heap, &list(tagged.clone()));
     sess.bind("T", vt);
     let mut exp = tagged.clone();
@@ -434,19 +447,19 @@ fn record_laws(ctx: &Ctx, sink: &mut Sink, i: u64) {
 }
 
 pub fn run(ctx: &Ctx, sink: &mut Sink) {
-    let nl = ctx.budget(2500, 150000);
+    let nl = ctx.budget(24_000, 400_000);
     for i in 0..nl {
         if ctx.mine(i) {
             list_laws(ctx, sink, i);
         }
     }
-    let ns = ctx.budget(2500, 150000);
+    let ns = ctx.budget(24_000, 400_000);
     for i in 0..ns {
         if ctx.mine(i) {
             string_laws(ctx, sink, i);
         }
     }
-    let nr = ctx.budget(1200, 60000);
+    let nr = ctx.budget(12_000, 200_000);
     for i in 0..nr {
         if ctx.mine(i) {
             record_laws(ctx, sink, i);
